@@ -151,6 +151,17 @@ pub mod implementations {
 
         left.check_integer_overflow(symbols, &right)?;
 
+        // the ordering operators are defined between numbers; anything else - first of all `nil`, which reaches them
+        // through an optional or a missing map entry - used to panic inside `PartialOrd` ("boolean comparison on a
+        // non-boolean") and is a run-time error like for the other operators
+        if matches!(symbols.as_str(), ">" | "<" | ">=" | "<=") && !(left.is_numeric() && right.is_numeric()) {
+            bail!(
+                "invalid binary operation: <{:?} {symbols} {:?}> is invalid. (valid ops are: <num {symbols} num>)",
+                left.ty(),
+                right.ty()
+            );
+        }
+
         let result = match (symbols.as_str(), &left, &right) {
             ("+", ..) => left + right,
             ("-", ..) => left - right,
